@@ -89,8 +89,8 @@ var jsShapes = map[string]string{
 	"setnested": `function transform_entities(entities) { for (e of entities) { e["Properties"]["nested"] = [[1, 2], [3], []]; e["Properties"]["flat"] = [4, 5]; e["Properties"]["n"] = 7; } return entities; }`,
 	// a "create entities" transform: appends one derived entity per input entity to the array it was given and returns it
 	"pushderived": `function transform_entities(entities) { var n = entities.length; for (var i = 0; i < n; i++) { var e = entities[i]; var d = NewEntity(); SetId(d, GetId(e).replace(":e", ":d")); d["Properties"]["from"] = GetId(e); entities.push(d); } return entities; }`,
-	"identity": `function transform_entities(entities) { return entities; }`,
-	"dropeven": `function transform_entities(entities) { var r = []; for (e of entities) { var id = GetId(e); var n = parseInt(id.substring(id.indexOf(":e")+2)); if (n % 2 == 1) { r.push(e); } } return r; }`,
+	"identity":    `function transform_entities(entities) { return entities; }`,
+	"dropeven":    `function transform_entities(entities) { var r = []; for (e of entities) { var id = GetId(e); var n = parseInt(id.substring(id.indexOf(":e")+2)); if (n % 2 == 1) { r.push(e); } } return r; }`,
 }
 
 // C10Config is one point of the configuration box.
